@@ -20,11 +20,12 @@ CARRIED = {
     # the Newton driver is verified (E2 loop cut) against items whose assemble.vector / assemble.matrix only compute a
     # TENTATIVE new state and commit nothing (commit happens in update_statevars on success only): that is the C01
     # contract of the real SolidBody around a material with stored state variables
-    "C07": [("C01", "solidbody", _stateful)],
+    # ... external-load items ramped through update() (PointLoad) are the C14 `loads` contract
+    "C07": [("C01", "solidbody", _stateful), ("C14", "loads", lambda cfg: cfg.get("item") == "pointload")],
     # C15 also: the state vector a user material's history reaches the solid body through is MaterialStrain's (C03
     # framework contract around any user material); the step / substep counters a user callback of a
     # CharacteristicCurve receives are the C09 `curve_callback` contract
-    "C15": [("C01", "solidbody", _stateful), ("C03", "small_strain_user", None), ("C09", "curve_callback", None)],
+    "C15": [("C01", "solidbody", _stateful), ("C03", "small_strain_user", None), ("C03", "composite", None), ("C09", "curve_callback", None), ("C14", "loads", lambda cfg: cfg.get("item") == "pointload")],
     # solid bodies on mixed u/p/J fields are verified against StubMixedMaterial (blocks == mixed derivatives of the
     # three-field functional), follower loads against StubAreaChange (cofactor and its derivative)
     "C01": [("C03", "mixed", None), ("C03", "kinematics", None)],
